@@ -1101,7 +1101,7 @@ class LayoutSwapper(LayoutManager):
                 blockSize2 = np.prod(blockShape2)
 
                 # Ensure that there is enough memory for this gather operation
-                if (blockSize1 > blockSize2):
+                if (n1 < n2):
                     comm = h2.communicators[idx_2]
                     mpi_size = comm.Get_size()
 
